@@ -135,6 +135,89 @@ def _probe_object():
     return _PROBE
 
 
+_DYN = {}
+
+
+def _dyn_class(names, metas):
+    """A HasTraits class with an `Any` trait for every name of the expression (and
+    `items`), each carrying every metadata name of the expression."""
+    key = (names, metas)
+    if key not in _DYN:
+        from traits.api import Any, HasTraits
+        try:
+            md = {m: True for m in metas}
+            _DYN[key] = type("Dyn", (HasTraits,), {n: Any(**md) for n in names})
+        except Exception:      # noqa: BLE001  (a metadata name that TraitType reserves)
+            _DYN[key] = None
+    return _DYN[key]
+
+
+def _hooks(objs):
+    """Number of notifiers of the observe machinery (TraitEventNotifier,
+    ObserverChangeNotifier, ...) attached anywhere on the objects."""
+    def mine(ns):
+        return sum(1 for x in (ns or ()) if type(x).__module__.startswith("traits.observation"))
+    n = 0
+    for o in objs:
+        n += mine(o._notifiers(False))
+        for t in o._instance_traits().values():
+            n += mine(t._notifiers(False))
+    return n
+
+
+def _removal_check(text, dup, tags):
+    """The property's last clause on REAL objects: observe(h, text) followed by
+    observe(h, <equivalent spelling>, remove=True) leaves nothing attached."""
+    try:
+        toks = D.tokenize(text)
+    except D.NotInLanguage:
+        return []
+    names, metas, prev = {"items"}, set(), None
+    for t in toks:
+        if isinstance(t, tuple):
+            (metas if prev == "+" else names).add(t[1])
+        prev = t
+    if len(names) > 8:
+        return []
+    cls = _dyn_class(tuple(sorted(names)), tuple(sorted(metas)))
+    if cls is None:
+        tags.add("removal:class-not-buildable")
+        return []
+    depth = sum(1 for t in toks if t in (".", ":")) + 1
+    objs = [cls() for _ in range(depth + 1)]
+    for i in range(depth):
+        for n in names:
+            setattr(objs[i], n, objs[i + 1])
+    calls = []
+    handler = calls.append
+    other = ("[ " + text + " ]") if "*" not in text else (" " + text + "\t")
+    before = _hooks(objs)
+    try:
+        objs[0].observe(handler, text)
+    except Exception as e:      # noqa: BLE001
+        tags.add("removal:observe-raised:" + type(e).__name__)
+        return []
+    hooked = _hooks(objs) - before
+    kind = "dup" if dup else "nodup"
+    tags.add("removal-checked:" + kind)
+    try:
+        objs[0].observe(handler, other, remove=True)
+    except Exception as e:      # noqa: BLE001
+        return [_hit("removal-by-text-raises:" + kind, "observe(h, %r) then observe(h, %r, remove=True) raised %s"
+                     % (text, other, type(e).__name__), text=text)]
+    left = _hooks(objs) - before
+    del calls[:]
+    for o in objs:
+        for n in names:
+            setattr(o, n, cls())
+    if left != 0 or calls:
+        return [_hit("removal-by-text-leaves-hooks:" + kind,
+                     "after observe(h, %r) (+%d notifiers) and observe(h, %r, remove=True) %d notifier(s) stay attached "
+                     "and the handler was called %d time(s) by later changes" % (text, hooked, other, left, len(calls)),
+                     text=text)]
+    return []
+
+
 def _classify_rejected(text, info):
     if info["star_in_brackets"]:
         return SIG_STAR, ("'*' inside brackets in a terminal position is documented as permitted "
@@ -222,6 +305,8 @@ def _run_c(text):
                     or P.parse(text) != fresh or E.compile_expr(fresh) != fresh_graphs:
                 hits.append(_hit("cached-graphs-mutated", "cached compile result changed after use", text=text))
             tags.add("cache-checked")
+            if not any(ord(ch) >= 128 for ch in text):
+                hits.extend(_removal_check(text, info["dup"], tags))
     except Exception as e:      # noqa: BLE001
         hits.append(_hit("reparse-raises", "second parse raised %s" % type(e).__name__, text=text))
     return out, hits, tags
